@@ -273,6 +273,13 @@ def no_new_state(ck, rels, rule='STATE-no-memory'):
                 if isinstance(st, ast.Assign) and isinstance(st.targets[0], ast.Name) and _is_container(st.value):
                     cands[cname + '.' + st.targets[0].id] = st
         for qual, fn in m.functions.items():
+            # a memoising decorator is memory that survives between calls
+            for dec in getattr(fn, 'decorator_list', []):
+                dn = u(dec.func) if isinstance(dec, ast.Call) else u(dec)
+                if dn.split('.')[-1] in ('lru_cache', 'cache', 'cached_property', 'memoize', 'memoized'):
+                    nmod += 1
+                    ck.ob(rule, m.loc(fn), False, '{} is memoised with @{}: results are remembered across calls (arguments that are mutable objects, or state read besides the '
+                          'arguments, make the cached result stale)'.format(qual, dn), key='{}|memoised|{}|{}'.format(rule, rel, qual))
             # a mutable default argument that the function writes into is memory shared by all calls
             a_ = fn.args
             pos_ = a_.posonlyargs + a_.args
